@@ -78,25 +78,31 @@ def run(ctx):
         return
 
     rng = ctx.rng
-    fam_all = ["fam_%s_%s" % (f, h) for f in FAMILIES for h in ("hold", "fail")]
+    fam_all = ["fam_%s_%s" % (f, h) for f in FAMILIES for h in ("hold", "fail")] + \
+              ["pos_%s_%s" % (c, p) for c in FAMILIES + ["rterr", "badcall", "state", "hdr", "called", "hold"]
+               for p in ("then", "elif", "else", "nested", "case")]
     beh_paths = []
     if quick:
         # every sequence of <= 2 tests over the core pool + a seeded sample of the assertion-family tests, main VCL 1;
-        fams = rng.sample(fam_all, 4)
+        fams = rng.sample(fam_all, 6)
+        # interference between tests does not depend on coverage: all pairs over the core pool without coverage,
+        # pairs over a seeded part of it with coverage; every test alone both ways (m3)
         m1 = ctx.tlc("Tester", defines={"MaxLen": "2", "Pool": "CoreNames \\cup " + tla_set(fams), "MainIds": "MainOne",
-                                        "MaxFam": "1"}, tag="len<=2 main1")
+                                        "MaxFam": "1", "Coverages": "NoCov"}, tag="len<=2 main1 no coverage")
+        m1c = ctx.tlc("Tester", defines={"MaxLen": "2", "Pool": tla_set(rng.sample(CORE, 14)), "MainIds": "MainOne",
+                                         "MaxFam": "0", "Coverages": "{TRUE}", "EmitAll": "FALSE"}, tag="len2 sample main1 coverage")
         # every single test and a seeded set of pairs against main VCL 2
         core2 = rng.sample(CORE, 8)
         m2 = ctx.tlc("Tester", defines={"MaxLen": "2", "Pool": tla_set(core2 + rng.sample(fam_all, 3)), "MainIds": "{2}",
                                         "MaxFam": "1"}, tag="len<=2 main2 sample")
         m3 = ctx.tlc("Tester", defines={"MaxLen": "1", "Pool": "AllTests", "MainIds": "MainBoth", "MaxFam": "1"},
                      tag="len1 all")
-        runs_tlc = [m1, m2, m3]
+        runs_tlc = [m1, m1c, m2, m3]
         ctx.exhaustive = False
     else:
         # every file of <= 2 tests over the whole pool against main VCL 1, over the core pool against main VCL 2
-        m1 = ctx.tlc("Tester", defines={"MaxLen": "2", "Pool": "AllTests", "MainIds": "MainOne", "MaxFam": "2"},
-                     tag="len<=2 all main1", timeout=1800)
+        m1 = ctx.tlc("Tester", defines={"MaxLen": "2", "Pool": "CoreNames \\cup FamNames", "MainIds": "MainOne", "MaxFam": "2"},
+                     tag="len<=2 core+fam main1", timeout=1800)
         m2 = ctx.tlc("Tester", defines={"MaxLen": "2", "Pool": "CoreNames", "MainIds": "{2}", "MaxFam": "0"},
                      tag="len<=2 core main2", timeout=1800)
         # every file of exactly 3 tests over a seeded part of the core pool
@@ -108,7 +114,13 @@ def run(ctx):
         m5 = ctx.tlc("Tester", cfg="TesterSim.cfg", simulate=1500, depth=40,
                      defines={"MaxLen": "4", "Pool": "AllTests", "MainIds": "MainBoth", "MaxFam": "2", "EmitAll": "FALSE"},
                      tag="len4 simulate", timeout=1800)
-        runs_tlc = [m1, m2, m3, m4, m5]
+        # the positional tests: each alone against both main VCLs, and next to a seeded part of the core pool
+        m6 = ctx.tlc("Tester", defines={"MaxLen": "1", "Pool": "AllTests", "MainIds": "MainBoth", "MaxFam": "1"},
+                     tag="len1 all", timeout=1800)
+        m7 = ctx.tlc("Tester", defines={"MaxLen": "2", "Pool": "PosNames \\cup " + tla_set(rng.sample(CORE, 8)),
+                                        "MainIds": "MainOne", "MaxFam": "1", "EmitAll": "FALSE"},
+                     tag="len2 positional x core sample", timeout=1800)
+        runs_tlc = [m1, m2, m3, m4, m5, m6, m7]
         ctx.exhaustive = False
     for m in runs_tlc:
         if m.violated:
@@ -182,4 +194,6 @@ CORE = ["recv_a1", "recv_a2x", "recv_a3y", "recv_dflt", "recv_wrong", "recv_err"
         "set_header", "read_header", "inject_var", "read_var", "mock_sub", "mock_fn", "unmocked", "set_host", "read_host",
         "logs", "logs_main", "two_scopes", "two_leak", "two_var", "deliver_fx", "deliver_log", "zone_unset", "zone_in",
         "zone_out", "zone_bad", "zone_noguard", "merge_set", "merge_read", "merge_twice", "mock_restore", "inject_twice",
-        "host_twice", "empty"]
+        "host_twice", "seq_lookup_bare", "seq_err_bare", "seq_restart_bare", "seq_lookup_fall", "seq_three", "seq_bare_wrong",
+        "seq_two_scopes", "seq_two_restart", "boom_then", "boom_elif", "boom_nested", "boom_case", "boom_helper", "boom_none",
+        "empty"]
